@@ -1,8 +1,380 @@
 import GB.C05.Spec
 /-
-  C05 — helper lemmas for the property theorems.
+  C05 — helper lemmas for the property theorems (core Lean only).
 -/
+set_option linter.unusedSimpArgs false
+set_option linter.unusedVariables false
 namespace GB.C05
 open GB
+
+/-! ### listServiceNames -/
+
+theorem mem_listFilter (cfg : Cfg) : ∀ (raw processed : List Name) (n : Name),
+    n ∈ listFilter cfg processed raw ↔
+      (n ∈ raw ∧ isValidFullName n = true ∧ ignored cfg n = false ∧ n ∉ processed) := by
+  intro raw
+  induction raw with
+  | nil => intro p n; simp [listFilter]
+  | cons s rest ih =>
+    intro p n
+    unfold listFilter
+    by_cases hv : isValidFullName s = true
+    · by_cases hp : s ∈ p
+      · simp only [hv, hp, Bool.not_true, Bool.false_eq_true, ↓reduceIte, ih, List.mem_cons]
+        constructor
+        · rintro ⟨a, b, c, d⟩; exact ⟨Or.inr a, b, c, d⟩
+        · rintro ⟨a | a, b, c, d⟩
+          · subst a; exact absurd hp d
+          · exact ⟨a, b, c, d⟩
+      · by_cases hi : ignored cfg s = true
+        · simp only [hv, hp, hi, Bool.not_true, Bool.false_eq_true, ↓reduceIte, ih, List.mem_cons]
+          constructor
+          · rintro ⟨a, b, c, d⟩; exact ⟨Or.inr a, b, c, fun h => d (Or.inr h)⟩
+          · rintro ⟨a | a, b, c, d⟩
+            · subst a; rw [hi] at c; exact absurd c (by decide)
+            · refine ⟨a, b, c, ?_⟩
+              rintro (h | h)
+              · subst h; rw [hi] at c; exact absurd c (by decide)
+              · exact d h
+        · have hi' : ignored cfg s = false := by cases h : ignored cfg s <;> simp_all
+          simp only [hv, hp, hi, Bool.not_true, Bool.false_eq_true, ↓reduceIte, List.mem_cons, ih]
+          constructor
+          · rintro (a | ⟨a, b, c, d⟩)
+            · subst a; exact ⟨Or.inl rfl, hv, hi', hp⟩
+            · exact ⟨Or.inr a, b, c, fun h => d (Or.inr h)⟩
+          · rintro ⟨a | a, b, c, d⟩
+            · exact Or.inl a
+            · by_cases e : n = s
+              · exact Or.inl e
+              · refine Or.inr ⟨a, b, c, ?_⟩
+                rintro (h | h)
+                · exact e h
+                · exact d h
+    · have hv' : isValidFullName s = false := by cases h : isValidFullName s <;> simp_all
+      simp only [hv', Bool.not_false, ↓reduceIte, ih, List.mem_cons]
+      constructor
+      · rintro ⟨a, b, c, d⟩; exact ⟨Or.inr a, b, c, d⟩
+      · rintro ⟨a | a, b, c, d⟩
+        · subst a; rw [hv'] at b; exact absurd b (by decide)
+        · exact ⟨a, b, c, d⟩
+
+theorem nodup_listFilter (cfg : Cfg) : ∀ (raw processed : List Name),
+    (listFilter cfg processed raw).Nodup := by
+  intro raw
+  induction raw with
+  | nil => intro p; simp [listFilter]
+  | cons s rest ih =>
+    intro p
+    unfold listFilter
+    split
+    · exact ih p
+    · split
+      · exact ih p
+      · split
+        · exact ih _
+        · rw [List.nodup_cons]
+          refine ⟨?_, ih _⟩
+          intro h
+          have := (mem_listFilter cfg rest (s :: p) s).1 h
+          exact this.2.2.2 (List.mem_cons_self)
+
+/-! ### de-duplication by file name -/
+
+theorem mem_dedupFiles : ∀ (l : List DFile) (p : List Name) (f : DFile),
+    f ∈ dedupFiles p l → f ∈ l ∧ f.name ∉ p := by
+  intro l
+  induction l with
+  | nil => intro p f h; simp [dedupFiles] at h
+  | cons g rest ih =>
+    intro p f h
+    unfold dedupFiles at h
+    split at h
+    · have := ih p f h; exact ⟨List.mem_cons_of_mem _ this.1, this.2⟩
+    · rename_i hg
+      rcases List.mem_cons.1 h with e | h'
+      · subst e; exact ⟨List.mem_cons_self, hg⟩
+      · have := ih _ f h'
+        exact ⟨List.mem_cons_of_mem _ this.1, fun hp => this.2 (List.mem_cons_of_mem _ hp)⟩
+
+theorem names_dedupFiles : ∀ (l : List DFile) (p : List Name) (n : Name),
+    n ∈ fileNames (dedupFiles p l) ↔ (n ∈ fileNames l ∧ n ∉ p) := by
+  intro l
+  induction l with
+  | nil => intro p n; simp [dedupFiles, fileNames]
+  | cons g rest ih =>
+    intro p n
+    unfold dedupFiles
+    split
+    · rename_i hg
+      rw [ih]
+      simp only [fileNames, List.map_cons, List.mem_cons]
+      constructor
+      · rintro ⟨a, b⟩; exact ⟨Or.inr a, b⟩
+      · rintro ⟨a | a, b⟩
+        · subst a; exact absurd hg b
+        · exact ⟨a, b⟩
+    · rename_i hg
+      simp only [fileNames, List.map_cons, List.mem_cons] at ih ⊢
+      rw [ih]
+      simp only [List.mem_cons, not_or]
+      constructor
+      · rintro (a | ⟨a, b, c⟩)
+        · subst a; exact ⟨Or.inl rfl, hg⟩
+        · exact ⟨Or.inr a, c⟩
+      · rintro ⟨a | a, b⟩
+        · exact Or.inl a
+        · by_cases e : n = g.name
+          · exact Or.inl e
+          · exact Or.inr ⟨a, e, b⟩
+
+theorem nodup_dedupFiles : ∀ (l : List DFile) (p : List Name),
+    (fileNames (dedupFiles p l)).Nodup := by
+  intro l
+  induction l with
+  | nil => intro p; simp [dedupFiles, fileNames]
+  | cons g rest ih =>
+    intro p
+    unfold dedupFiles
+    split
+    · exact ih p
+    · simp only [fileNames, List.map_cons]
+      rw [List.nodup_cons]
+      refine ⟨?_, ih _⟩
+      intro h
+      have := (names_dedupFiles rest (g.name :: p) g.name).1 h
+      exact this.2 List.mem_cons_self
+
+/-- the first file of every name survives: what the registry holds for a name is what came first -/
+theorem dedupFiles_nil_names (l : List DFile) (n : Name) :
+    n ∈ fileNames (dedupFiles [] l) ↔ n ∈ fileNames l := by
+  rw [names_dedupFiles]; simp
+
+/-! ### missing-set bookkeeping -/
+
+theorem mem_growNames (present : List Name) : ∀ (ds m : List Name) (d : Name),
+    d ∈ growNames present m ds ↔ (d ∈ m ∨ (d ∈ ds ∧ d ∉ present)) := by
+  intro ds
+  induction ds with
+  | nil => intro m d; simp [growNames]
+  | cons x rest ih =>
+    intro m d
+    unfold growNames
+    split
+    · rename_i hx
+      rw [ih]
+      constructor
+      · rintro (a | ⟨a, b⟩)
+        · exact Or.inl a
+        · exact Or.inr ⟨List.mem_cons_of_mem _ a, b⟩
+      · rintro (a | ⟨a, b⟩)
+        · exact Or.inl a
+        · rcases List.mem_cons.1 a with e | a'
+          · subst e
+            rcases hx with h | h
+            · exact absurd h b
+            · exact Or.inl h
+          · exact Or.inr ⟨a', b⟩
+    · rename_i hx
+      rw [ih]
+      simp only [List.mem_append, List.mem_singleton, List.mem_cons, List.not_mem_nil, or_false]
+      constructor
+      · rintro ((a | a) | ⟨a, b⟩)
+        · exact Or.inl a
+        · subst a; exact Or.inr ⟨Or.inl rfl, fun h => hx (Or.inl h)⟩
+        · exact Or.inr ⟨Or.inr a, b⟩
+      · rintro (a | ⟨a | a, b⟩)
+        · exact Or.inl (Or.inl a)
+        · exact Or.inl (Or.inr a)
+        · exact Or.inr ⟨a, b⟩
+
+theorem mem_growMissing (fs : List DFile) (present m : List Name) (d : Name) :
+    d ∈ growMissing fs present m ↔ (d ∈ m ∨ ((∃ f ∈ fs, d ∈ f.deps) ∧ d ∉ present)) := by
+  unfold growMissing
+  rw [mem_growNames]
+  simp only [List.mem_flatMap]
+
+theorem mem_shrinkMissing (fs : List DFile) (m : List Name) (d : Name) :
+    d ∈ shrinkMissing fs m ↔ (d ∈ m ∧ d ∉ fileNames fs) := by
+  unfold shrinkMissing
+  simp [List.mem_filter]
+
+/-! ### one pipelined batch -/
+
+theorem execBatch_ok (pol : Policy) : ∀ (reqs : List Request) (h h' : History) (got : List DFile),
+    execBatch pol h reqs = (h', .ok got) →
+      (∀ f ∈ got, ∃ h'' q fs, q ∈ reqs ∧ pol h'' q = .files fs ∧ f ∈ fs) ∧
+      (∀ q ∈ reqs, ∃ h'' fs, pol h'' q = .files fs ∧ ∀ f ∈ fs, f ∈ got) := by
+  intro reqs
+  induction reqs with
+  | nil =>
+    intro h h' got he
+    simp only [execBatch, Prod.mk.injEq, Except.ok.injEq] at he
+    rcases he with ⟨_, rfl⟩
+    simp
+  | cons q rest ih =>
+    intro h h' got he
+    unfold execBatch at he
+    simp only at he
+    cases ha : pol h q with
+    | files fs =>
+      simp only [ha] at he
+      cases hr : execBatch pol (h ++ [(q, Answer.files fs)]) rest with
+      | mk h2 r =>
+        cases r with
+        | error e => simp [hr] at he
+        | ok more =>
+          simp only [hr, Prod.mk.injEq, Except.ok.injEq] at he
+          rcases he with ⟨_, rfl⟩
+          have := ih _ _ _ hr
+          constructor
+          · intro f hf
+            rcases List.mem_append.1 hf with hf | hf
+            · exact ⟨h, q, fs, List.mem_cons_self, ha, hf⟩
+            · rcases this.1 f hf with ⟨h'', q', fs', a, b, c⟩
+              exact ⟨h'', q', fs', List.mem_cons_of_mem _ a, b, c⟩
+          · intro q' hq'
+            rcases List.mem_cons.1 hq' with e | hq'
+            · subst e
+              exact ⟨h, fs, ha, fun f hf => List.mem_append_left _ hf⟩
+            · rcases this.2 q' hq' with ⟨h'', fs', a, b⟩
+              exact ⟨h'', fs', a, fun f hf => List.mem_append_right _ (b f hf)⟩
+    | garbled fs =>
+      simp only [ha] at he
+      cases hr : execBatch pol (h ++ [(q, Answer.garbled fs)]) rest with
+      | mk h2 r => cases r <;> simp [hr] at he
+    | error c => simp [ha] at he
+    | listing l => simp [ha] at he
+    | other t => simp [ha] at he
+
+theorem execBatch_succeeds (pol : Policy) : ∀ (reqs : List Request) (h : History),
+    (∀ q ∈ reqs, ∀ h'', ∃ fs, pol h'' q = .files fs) →
+      ∃ h' got, execBatch pol h reqs = (h', .ok got) := by
+  intro reqs
+  induction reqs with
+  | nil => intro h _; exact ⟨h, [], rfl⟩
+  | cons q rest ih =>
+    intro h hall
+    rcases hall q List.mem_cons_self h with ⟨fs, ha⟩
+    rcases ih (h ++ [(q, Answer.files fs)]) (fun q' hq' => hall q' (List.mem_cons_of_mem _ hq')) with ⟨h', got, hr⟩
+    refine ⟨h', fs ++ got, ?_⟩
+    unfold execBatch
+    simp only [ha, hr]
+
+/-! ### the BFS of retrieveDependencies: what holds for EVERY answering policy -/
+
+structure SafeInv (s : Bfs) : Prop where
+  nodup : (fileNames s.descriptors).Nodup
+  present : ∀ n, n ∈ s.present ↔ n ∈ fileNames s.descriptors
+  deps : ∀ f ∈ s.descriptors, ∀ d ∈ f.deps, d ∈ s.present ∨ d ∈ s.missing
+
+theorem fileNames_append (a b : List DFile) : fileNames (a ++ b) = fileNames a ++ fileNames b := by
+  simp [fileNames]
+
+theorem mem_fileNames {fs : List DFile} {n : Name} : n ∈ fileNames fs ↔ ∃ f ∈ fs, f.name = n := by
+  simp [fileNames]
+
+theorem safeInv_next (s : Bfs) (h : History) (got : List DFile) (hs : SafeInv s)
+    (hshrink : shrinkMissing (dedupFiles [] got) s.missing = []) :
+    SafeInv (nextState (dedupFiles []) h got s) := by
+  have hall : ∀ m ∈ s.missing, m ∈ fileNames (dedupFiles [] got) := by
+    intro m hm
+    by_cases hin : m ∈ fileNames (dedupFiles [] got)
+    · exact hin
+    · have : m ∈ shrinkMissing (dedupFiles [] got) s.missing := (mem_shrinkMissing _ _ _).2 ⟨hm, hin⟩
+      rw [hshrink] at this; exact absurd this (by simp)
+  constructor
+  · -- nodup
+    show (fileNames (s.descriptors ++ (dedupFiles [] got).filter (fun f => f.name ∉ s.present))).Nodup
+    rw [fileNames_append, List.nodup_append]
+    refine ⟨hs.nodup, ?_, ?_⟩
+    · have hsub : ((dedupFiles [] got).filter (fun f => f.name ∉ s.present)).Sublist (dedupFiles [] got) :=
+        List.filter_sublist
+      exact (nodup_dedupFiles got []).sublist (hsub.map _)
+    · intro a ha b hb hab
+      subst hab
+      rcases mem_fileNames.1 hb with ⟨g, hg, rfl⟩
+      have := (List.mem_filter.1 hg).2
+      simp only [decide_eq_true_eq] at this
+      exact this ((hs.present _).2 ha)
+  · -- present
+    intro n
+    show n ∈ s.present ++ fileNames (dedupFiles [] got) ↔
+      n ∈ fileNames (s.descriptors ++ (dedupFiles [] got).filter (fun f => f.name ∉ s.present))
+    rw [fileNames_append, List.mem_append, List.mem_append]
+    constructor
+    · rintro (a | a)
+      · exact Or.inl ((hs.present n).1 a)
+      · by_cases hp : n ∈ s.present
+        · exact Or.inl ((hs.present n).1 hp)
+        · rcases mem_fileNames.1 a with ⟨g, hg, rfl⟩
+          exact Or.inr (mem_fileNames.2 ⟨g, List.mem_filter.2 ⟨hg, by simpa using hp⟩, rfl⟩)
+    · rintro (a | a)
+      · exact Or.inl ((hs.present n).2 a)
+      · rcases mem_fileNames.1 a with ⟨g, hg, rfl⟩
+        exact Or.inr (mem_fileNames.2 ⟨g, (List.mem_filter.1 hg).1, rfl⟩)
+  · -- deps
+    intro f hf d hd
+    show d ∈ s.present ++ fileNames (dedupFiles [] got) ∨
+      d ∈ growMissing (dedupFiles [] got) (s.present ++ fileNames (dedupFiles [] got)) (shrinkMissing (dedupFiles [] got) s.missing)
+    have hf' : f ∈ s.descriptors ++ (dedupFiles [] got).filter (fun f => f.name ∉ s.present) := hf
+    rcases List.mem_append.1 hf' with hf | hf
+    · rcases hs.deps f hf d hd with a | a
+      · exact Or.inl (List.mem_append_left _ a)
+      · exact Or.inl (List.mem_append_right _ (hall d a))
+    · by_cases hp : d ∈ s.present ++ fileNames (dedupFiles [] got)
+      · exact Or.inl hp
+      · exact Or.inr ((mem_growMissing _ _ _ _).2 (Or.inr ⟨⟨f, (List.mem_filter.1 hf).1, hd⟩, hp⟩))
+
+theorem closed_of_safe (s : Bfs) (hs : SafeInv s) (hm : s.missing = []) : Closed s.descriptors := by
+  intro f hf d hd
+  rcases hs.deps f hf d hd with a | a
+  · exact (hs.present d).1 a
+  · rw [hm] at a; exact absurd a (by simp)
+
+theorem bfsLoop_safe (pol : Policy) (sched : Sched) (Q : DFile → Prop)
+    (hQ : ∀ h q fs, pol h q = .files fs → ∀ f ∈ fs, Q f) :
+    ∀ (fuel : Nat) (s : Bfs) (h : History) (ds : List DFile), SafeInv s → (∀ f ∈ s.descriptors, Q f) →
+      bfsLoop (dedupFiles []) pol sched fuel s = (h, .ok ds) →
+        Closed ds ∧ (fileNames ds).Nodup ∧ (∀ f ∈ ds, Q f) ∧ (∀ f ∈ s.descriptors, f ∈ ds) := by
+  intro fuel
+  induction fuel with
+  | zero =>
+    intro s h ds hs hq he
+    unfold bfsLoop at he
+    split at he
+    · rename_i hm
+      simp only [Prod.mk.injEq, Except.ok.injEq] at he
+      rcases he with ⟨_, rfl⟩
+      exact ⟨closed_of_safe s hs (List.isEmpty_iff.1 hm), hs.nodup, hq, fun f hf => hf⟩
+    · simp at he
+  | succ fuel ih =>
+    intro s h ds hs hq he
+    unfold bfsLoop at he
+    split at he
+    · rename_i hm
+      simp only [Prod.mk.injEq, Except.ok.injEq] at he
+      rcases he with ⟨_, rfl⟩
+      exact ⟨closed_of_safe s hs (List.isEmpty_iff.1 hm), hs.nodup, hq, fun f hf => hf⟩
+    · split at he
+      · simp at he
+      · rename_i h1 got hb
+        split at he
+        · simp at he
+        · rename_i hsh
+          have hshrink : shrinkMissing (dedupFiles [] got) s.missing = [] := by
+            simpa using hsh
+          have hgot := (execBatch_ok pol _ _ _ _ hb).1
+          have hq' : ∀ f ∈ (nextState (dedupFiles []) h1 got s).descriptors, Q f := by
+            intro f hf
+            have hf' : f ∈ s.descriptors ++ (dedupFiles [] got).filter (fun f => f.name ∉ s.present) := hf
+            rcases List.mem_append.1 hf' with hf | hf
+            · exact hq f hf
+            · have hfg : f ∈ got := (mem_dedupFiles got [] f (List.mem_filter.1 hf).1).1
+              rcases hgot f hfg with ⟨h'', q, fs, _, b, c⟩
+              exact hQ h'' q fs b f c
+          rcases ih _ h ds (safeInv_next s h1 got hs hshrink) hq' he with ⟨a, b, c, d⟩
+          refine ⟨a, b, c, fun f hf => d f ?_⟩
+          show f ∈ s.descriptors ++ (dedupFiles [] got).filter (fun f => f.name ∉ s.present)
+          exact List.mem_append_left _ hf
 
 end GB.C05
